@@ -392,6 +392,12 @@ pub proof fn lemma_lk_ext(m0: CellMap, pcells: Seq<proto::Cell>, c1: Seq<Ptr<Cel
 {
     if n > 0 { lemma_lk_ext(m0, pcells, c1, c2, (n - 1) as nat, q); }
 }
+/// model of #[derive(Default)] on the importer: empty error stack, empty cell map, empty library (the shared layer table — the `layers`
+/// argument of `import`, or a fresh table — is the fixed function `layer_of` of this unit, R5)
+impl Default for ProtoImporter {
+    #[verifier::external_body]
+    fn default() -> (r: Self) ensures r.ctx@.len() == 0, r.lib.cells@.len() == 0, forall|q: Seq<char>| #[trigger] r.cell_map.lookup(q) is None { unimplemented!() }
+}
 impl ProtoImporter {
     /// R5: `self.layers.write().unwrap().get_or_insert(*number as i16, *purpose as i16).unwrap()` with `number`, `purpose` destructured from
     /// `layershapes.layer.as_ref().unwrap()` — the shared layer table modelled, as for import_layer, by the function `layer_of`
@@ -457,6 +463,24 @@ impl ProtoImporter {
 //|                 it.index@ <= pabs.blockages@.len(), layer_map_imp(abs.blockages@, pabs.blockages@, it.index@ as int),
 //@   before /abs\.blockages\.insert\(layerkey, shapes\);/
 //|             proof { lemma_layer_map_step(abs.blockages@, pabs.blockages@, it.index@ as int, shapes); }
+//@ end
+//@ fn layout21raw/src/proto.rs :: impl ProtoImporter :: fn import
+//@   ret r
+//@   sub R5 /, layers: Option<Ptr<Layers>>\)/ => )
+//@   sub R5 /let layers = match layers \{\s*Some\(l\) => l,\s*None => Ptr::new\(Layers::default\(\)\),\s*\};/ =>
+//@   sub R5 /Self \{\s*layers,\s*\.\.Default::default\(\)\s*\}/ => Self { ..Default::default() }
+//@   sub R5 /mut lib, layers, \.\./ => mut lib, ..
+//@   sub R5 /lib\.layers = layers;/ =>
+//@   spec
+//|     requires obeys_key_model::<LayerKey>(), forall|i: int| 0 <= i < plib.cells@.len() ==> cell_msg_ok(#[trigger] plib.cells@[i]),
+//|     ensures r is Ok ==> exists|m0: CellMap, m1: CellMap| (forall|q: Seq<char>| #[trigger] m0.lookup(q) is None) && #[trigger] lib_imp(r->Ok_0, *plib, m0, m1),
+//|         !(0 <= plib.units <= 2) ==> r is Err,
+//@   before /importer\.import_lib\(/
+//|         let ghost vp_m0 = importer.cell_map;
+//@   after /importer\.import_lib\(/
+//|         let ghost vp_m1 = importer.cell_map;
+//@   before /^        Ok\(lib\)$/
+//|         proof { assert(forall|q: Seq<char>| #[trigger] vp_m0.lookup(q) is None); assert(lib_imp(lib, *plib, vp_m0, vp_m1)); let ghost vp_r: LayoutResult<Library> = Ok(lib); assert(lib_imp(vp_r->Ok_0, *plib, vp_m0, vp_m1)); }
 //@ end
 //@ fn layout21raw/src/proto.rs :: impl ProtoImporter :: fn import_lib
 //@   ret r
